@@ -4,3 +4,4 @@ import MistuneProofs.C18Unikey
 import MistuneProofs.C16
 import MistuneProofs.UnicodeSound
 import MistuneProofs.Oblig.Unicode
+import MistuneProofs.C15
